@@ -56,7 +56,14 @@ pub struct Probe<T: 'static> {
 
 impl<T: Send + Sync + 'static> Probe<T> {
     pub fn new(env: &Arc<Env>, k: usize, show: Show<T>) -> Arc<Self> {
-        Arc::new(Probe { env: Arc::clone(env), k, name: format!("K{k}"), show, tb: Mutex::new(None) })
+        let p = Arc::new(Probe { env: Arc::clone(env), k, name: format!("K{k}"), show, tb: Mutex::new(None) });
+        let w = Arc::downgrade(&p);
+        env.on_cleanup(Box::new(move || {
+            if let Some(p) = w.upgrade() {
+                *p.tb.lock().unwrap_or_else(|e| e.into_inner()) = None;
+            }
+        }));
+        p
     }
 
     pub fn sink(self: &Arc<Self>) -> Snk<T> {
@@ -190,7 +197,14 @@ impl<T: Send + Sync + 'static> Puppet<T> {
     ) -> Arc<Self> {
         let id = env.add_puppet(mode, late);
         let err = env.new_err(900 + id as i64);
-        Arc::new(Puppet { env: Arc::clone(env), id, gen, show, err, insts: Mutex::new(vec![]) })
+        let p = Arc::new(Puppet { env: Arc::clone(env), id, gen, show, err, insts: Mutex::new(vec![]) });
+        let w = Arc::downgrade(&p);
+        env.on_cleanup(Box::new(move || {
+            if let Some(p) = w.upgrade() {
+                p.insts.lock().unwrap_or_else(|e| e.into_inner()).clear();
+            }
+        }));
+        p
     }
 
     pub fn source(self: &Arc<Self>) -> Src<T> {
@@ -564,6 +578,7 @@ impl Clone for ProbeIterable {
             *c += 1;
             *c
         };
+        self.env.register_name(&format!("I{}#", self.id), &format!("I{}#{}", self.id, n));
         self.env.event("clone", &format!("I{}#{}", self.id, n), "", json!(0));
         ProbeIterable {
             env: Arc::clone(&self.env),
